@@ -291,7 +291,10 @@ def _same_ds(I, a, b):
 
 
 def tasks(tier):
-    return [TablesTask()] + [RoundTripTask(n) for n in sorted(COMMAND_FIELD)]
+    from contracts.dimse_frag import SendMsgTask
+    # which message class a primitive is converted with (request or response of ITS type) is decided in
+    # DIMSEServiceProvider.send_msg, the one caller of primitive_to_message on the sending side
+    return [TablesTask()] + [RoundTripTask(n) for n in sorted(COMMAND_FIELD)] + [SendMsgTask("C17/")]
 
 
 bounded_results = [{"what": "replay/C17.py (thorough tier, native): real primitive -> primitive_to_message -> encode_msg (pydicom) -> decode_msg -> "
